@@ -105,48 +105,23 @@ func (r *repository) UpdateRuleSet(srcID string, rules []rule.Rule) error {
 	// find all rules for the given src id
 	applicable := slicex.Filter(r.knownRules, func(r rule.Rule) bool { return r.SrcID() == srcID })
 
-	// find new rules, as well as those, which have been changed.
-	toBeAdded := slicex.Filter(rules, func(newRule rule.Rule) bool {
-		ruleIsNew := !slices.ContainsFunc(applicable, func(existingRule rule.Rule) bool {
-			return existingRule.SameAs(newRule)
-		})
-
-		ruleChanged := slices.ContainsFunc(applicable, func(existingRule rule.Rule) bool {
-			return existingRule.SameAs(newRule) && !existingRule.EqualTo(newRule)
-		})
-
-		return ruleIsNew || ruleChanged
-	})
-
-	// find deleted rules, as well as those, which have been changed.
-	toBeDeleted := slicex.Filter(applicable, func(existingRule rule.Rule) bool {
-		ruleGone := !slices.ContainsFunc(rules, func(newRule rule.Rule) bool {
-			return newRule.SameAs(existingRule)
-		})
-
-		ruleChanged := slices.ContainsFunc(rules, func(newRule rule.Rule) bool {
-			return newRule.SameAs(existingRule) && !newRule.EqualTo(existingRule)
-		})
-
-		return ruleGone || ruleChanged
-	})
-
 	tmp := r.index.Clone()
 
-	// delete rules
-	if err := r.removeRulesFrom(tmp, toBeDeleted); err != nil {
+	// remove all rules of the previous version of the rule set
+	if err := r.removeRulesFrom(tmp, applicable); err != nil {
 		return err
 	}
 
-	// add rules
-	if err := r.addRulesTo(tmp, toBeAdded); err != nil {
+	// and add the rules of the new version. That way, the order of the rules sharing the same
+	// path expression always corresponds to the order defined in the current version of the rule set
+	if err := r.addRulesTo(tmp, rules); err != nil {
 		return err
 	}
 
 	r.knownRules = slices.DeleteFunc(r.knownRules, func(loaded rule.Rule) bool {
-		return slices.Contains(toBeDeleted, loaded)
+		return slices.Contains(applicable, loaded)
 	})
-	r.knownRules = append(r.knownRules, toBeAdded...)
+	r.knownRules = append(r.knownRules, rules...)
 
 	r.rulesTreeMutex.Lock()
 	r.index = tmp
